@@ -23,7 +23,7 @@ var ev = kit.Ev("C12")
 func init() {
 	ev.Rule("a history = cleartext prefix (0-3 messages per direction, including unused directions) + key installation " +
 		"(SetSymmetricKey, or NewStreamWithCryptoState from a harness-built blob with counters 0,1,2^31,2^32-3..2^32-1 and base-IV leading word near 2^32) " +
-		"+ 1-40 sends (sizes 0,1,15,16,17,4KiB+-1,70KiB; both directions interleaved; single/multi-frame; PutSecret; crypto mode toggles), 1-3 sessions per key; " +
+		"+ 1-40 operations: sends (sizes 0,1,15,16,17,4KiB+-1,70KiB; both directions interleaved; single/multi-frame; PutSecret; crypto mode toggles; writes failing in mid-frame; the same key installed again on the same streams = a new session), 1-3 sessions per key; " +
 		"oracle: the independent codec predicts EVERY wire byte from the model of what was sent given only the base IV read from the first protected frame; " +
 		"all nonces under one key are distinct; counter never wraps; codec-built frames are accepted by the real receiver; " +
 		"non-trivial = >=3 protected frames in one direction and traffic in both; distinct by history")
@@ -91,6 +91,7 @@ type runStats struct {
 	protFrames [2]int
 	nonces     [][16]byte
 	baseIVs    [][16]byte
+	rekeys     int
 }
 
 // runSession executes one session and returns a violation text or "".
@@ -159,6 +160,23 @@ func runSession(key []byte, s Session, salt uint32, st *runStats) string {
 	seq := uint32(0)
 	for oi, op := range s.Ops {
 		switch op.Kind {
+		case "rekey":
+			// a new session on the SAME two stream objects: both ends install the key again (the cached secret of
+			// a resumed session on a kept connection). SetSymmetricKey documents a fresh random IV and zero
+			// counters, so the new session announces a new base IV and no (key, nonce) pair of the old one returns.
+			if md[0].broken || md[1].broken || md[0].lost || md[1].lost || md[0].refused || md[1].refused {
+				continue
+			}
+			if err := p.SetKey(key); err != nil {
+				return "re-installing the key failed: " + err.Error()
+			}
+			for d := 0; d < 2; d++ {
+				st.nonces = append(st.nonces, md[d].ref.Nonces...)
+				r, _ := kit.NewRefDir(key)
+				md[d] = dirModel{ref: r}
+			}
+			modeOn = true
+			st.rekeys++
 		case "mode":
 			modeOn = op.On
 			a := p.A.SetCryptoMode(op.On)
@@ -372,6 +390,8 @@ func genSession(t *rapid.T, allowBlob bool) Session {
 		case k == 2 && rapid.IntRange(0, 2).Draw(t, "fw") == 0:
 			sz := rapid.SampledFrom([]int{1, 16, 17, 300, 4096}).Draw(t, "fwsize")
 			s.Ops = append(s.Ops, Op{Kind: "failwrite", Dir: rapid.IntRange(0, 1).Draw(t, "dir"), Sizes: []int{sz, rapid.IntRange(0, sz+20).Draw(t, "passed")}})
+		case k == 3 && rapid.IntRange(0, 3).Draw(t, "rk") == 0:
+			s.Ops = append(s.Ops, Op{Kind: "rekey"})
 		case k == 1:
 			s.Ops = append(s.Ops, Op{Kind: "secret", Dir: rapid.IntRange(0, 1).Draw(t, "dir"), Sizes: []int{rapid.IntRange(0, 60).Draw(t, "seclen")}})
 		default:
@@ -407,6 +427,57 @@ func record(c Case, st runStats) {
 	if len(c.Sessions) > 1 {
 		ev.Class("multi-session-one-key")
 	}
+	if st.rekeys > 0 {
+		ev.Class("key-installed-again-on-the-same-streams")
+	}
+}
+
+// TestC12Rekey: directed histories in which the same key is installed again on the same pair of streams,
+// 1-3 times, with traffic in both directions (and mode toggles, secrets) before and after.
+func TestC12Rekey(t *testing.T) {
+	bad := 0
+	n := 0
+	for pre := 0; pre < 4; pre++ {
+		for _, sz := range [][]int{{16}, {0}, {4097, 1}, {70000}} {
+			for rk := 1; rk <= 3; rk++ {
+				for variant := 0; variant < 4; variant++ {
+					var s Session
+					if pre&1 != 0 {
+						s.PreAB = [][]int{{8, 40}}
+					}
+					if pre&2 != 0 {
+						s.PreBA = [][]int{{300}}
+					}
+					traffic := func() {
+						s.Ops = append(s.Ops, Op{Kind: "send", Dir: 0, Sizes: sz}, Op{Kind: "send", Dir: 1, Sizes: sz})
+						switch variant {
+						case 1:
+							s.Ops = append(s.Ops, Op{Kind: "mode", On: false}, Op{Kind: "secret", Dir: 0, Sizes: []int{20}}, Op{Kind: "send", Dir: 1, Sizes: []int{5}})
+						case 2:
+							s.Ops = append(s.Ops, Op{Kind: "send", Dir: 0, Sizes: []int{1, 1, 1}})
+						case 3:
+							s.Ops = append(s.Ops, Op{Kind: "secret", Dir: 1, Sizes: []int{3}})
+						}
+					}
+					traffic()
+					for i := 0; i < rk; i++ {
+						s.Ops = append(s.Ops, Op{Kind: "rekey"})
+						traffic()
+					}
+					c := Case{Salt: uint32(1000 + n), Sessions: []Session{s}}
+					n++
+					v, st := runCase(c)
+					record(c, st)
+					if v != "" && bad < 5 {
+						bad++
+						kit.Violation("C12", v, c)
+						t.Errorf("C12 violated: %s", v)
+					}
+				}
+			}
+		}
+	}
+	ev.Exhaustive("directed: the same key installed again 1-3 times on the same streams x 4 cleartext prefixes x 4 message shapes x 4 traffic variants")
 }
 
 func TestC12Histories(t *testing.T) {
